@@ -111,6 +111,62 @@ fn main() {
             visit_as::<Rgb565>(ctx, &d);
         });
         let n_thick = run.tier(150_000u64, 20_000_000u64);
+        // polylines whose public `vertices` field is assigned after construction (a value cached by
+        // `Polyline::new` would be stale): bounding boxes, the translated box, and draw() against pixels()
+        // must be those of a freshly constructed polyline (seeded `C02-18`, `C07-18`, `C01-18`)
+        let n_pv = run.tier(30_000u64, 3_000_000u64);
+        run.generate("polyline-vertices-assigned", n_pv, false, 0.1, |ctx, _idx, rng| {
+            use embedded_graphics::primitives::{Polyline, PrimitiveStyle};
+            let pts = |rng: &mut egmon::Rng, spread: i32| -> Vec<Point> { (0..rng.usizer(2, 6)).map(|_| Point::new(rng.i32r(-spread, spread), rng.i32r(-spread, spread))).collect() };
+            let a = pts(rng, 8);
+            let b = pts(rng, 40);
+            let w = rng.u32r(1, 5);
+            let d = Point::new(rng.i32r(-30, 30), rng.i32r(-30, 30));
+            let style = PrimitiveStyle::with_stroke(Rgb565::new(3, 5, 7), w);
+            ctx.eval();
+            let fresh = Polyline::new(&b);
+            let mut assigned = Polyline::new(&a);
+            if rng.chance(1, 2) {
+                assigned.translate_mut(d);
+                assigned.translate_mut(Point::zero() - d);
+            }
+            assigned.vertices = &b;
+            let case = || format!("Polyline::new({:?}) with `vertices` assigned {:?} afterwards, stroke width {}, offset {:?}", a, b, w, d);
+            let render = |p: &Polyline| {
+                let mut t = IterTarget::<Rgb565>::new(unbounded_box());
+                t.log.budget = 4_000_000;
+                let _ = p.into_styled(style).draw(&mut t);
+                t.log.map
+            };
+            let (mf, ma) = (render(&fresh), render(&assigned));
+            let mut px = IterTarget::<Rgb565>::new(unbounded_box());
+            px.log.budget = 4_000_000;
+            let _ = px.draw_iter(assigned.into_styled(style).pixels());
+            let sb = assigned.into_styled(style).bounding_box();
+            let outside = ma.px.keys().filter(|(x, y)| !sb.contains(Point::new(*x, *y))).count();
+            let what = if outside > 0 {
+                Some(("pixels-outside-bounding-box", format!("{} drawn points outside {:?}", outside, sb)))
+            } else if assigned.bounding_box() != fresh.bounding_box() || sb != fresh.into_styled(style).bounding_box() {
+                Some(("bounding-box-differs-from-fresh", format!("{:?} / {:?} instead of {:?} / {:?}", assigned.bounding_box(), sb, fresh.bounding_box(), fresh.into_styled(style).bounding_box())))
+            } else if !ma.same(&mf) || !px.log.map.same(&mf) {
+                Some(("draw-or-pixels-differ-from-fresh", format!("draw differs at {:?}, pixels() at {:?}", ma.first_diff(&mf), px.log.map.first_diff(&mf))))
+            } else if assigned.translate(d).bounding_box() != fresh.translate(d).bounding_box() || {
+                let mut m = assigned;
+                m.translate_mut(d);
+                m.bounding_box() != fresh.translate(d).bounding_box() || !render(&m).same(&mf.shifted(d.x, d.y))
+            } {
+                Some(("translated-differs-from-fresh", "translate/translate_mut of the assigned polyline".to_string()))
+            } else {
+                None
+            };
+            if let Some((k, detail)) = what {
+                ctx.violation(format!("polyline|vertices-assigned|{}", k), case, || detail.clone());
+            }
+            if !mf.is_empty() {
+                ctx.nontrivial(egmon::rng::mix(egmon::rng::hash_str(&format!("{:?}{:?}", a, b)), w as u64));
+            }
+            ctx.count("polylines_with_vertices_assigned_after_construction", 1);
+        });
         run.generate("thick-joins", n_thick, false, 0.25, |ctx, idx, rng| {
             let v = |rng: &mut egmon::Rng| (rng.i32r(-64, 64), rng.i32r(-64, 64));
             let p = match idx % 3 {
